@@ -311,11 +311,12 @@ func storedHeights(ds *vk.LogDS, st *store.Store[*vk.H]) []uint64 {
 
 func c16ParamSets(n uint64, thorough bool) []c16Params {
 	var out []c16Params
-	windows := []int{c16W / 2, c16W, 3 * c16W}
+	// n*b makes window/blockTime (and trustingPeriod/blockTime) equal to the head height exactly
+	windows := []int{c16W / 2, c16W, 3 * c16W, c16B * int(n), c16B * (int(n) - 2)}
 	heights := []uint64{0, 1, 3, 6, n - 2, n, n + 3}
 	hashes := []string{"", "c2", "c6", fmt.Sprintf("c%d", n-2), "unknown"}
 	bts := []int{0, c16B, 10 * c16B}
-	trs := []int{600, 86400}
+	trs := []int{600, 86400, c16B * int(n)}
 	for _, w := range windows {
 		for _, bt := range bts {
 			for _, tr := range trs {
